@@ -1008,34 +1008,45 @@ func ascendingFromZero(v ssa.Value) bool {
 func c16ordered(p *core.Prog, im, producer, workerFn *ssa.Function, list, fParam ssa.Value, binding func(*ssa.Function, ssa.Value) ssa.Value) (bool, string) {
 	// producer: map update key = range index of list, value = list[index]
 	okP := false
-	core.Instrs(producer, func(ins ssa.Instruction) {
-		mu, ok := ins.(*ssa.MapUpdate)
-		if !ok {
-			return
+	// (the tagged job may be built by a small constructor helper: its key/value parameters are read as the arguments)
+	for _, fd := range core.DeepFind(p, producer, func(ins ssa.Instruction) bool {
+		_, ok := ins.(*ssa.MapUpdate)
+		return ok
+	}) {
+		mu := fd.Ins.(*ssa.MapUpdate)
+		key, kst := core.Up(mu.Key, fd.Stack)
+		val, vst := core.Up(mu.Value, fd.Stack)
+		if len(kst) != 0 || len(vst) != 0 {
+			continue
 		}
-		ld, ok := mu.Value.(*ssa.UnOp)
+		ld, ok := core.Resolve(val).(*ssa.UnOp)
 		if !ok {
-			return
+			continue
 		}
 		ia, ok := ld.X.(*ssa.IndexAddr)
-		if ok && ia.Index == mu.Key && ascendingIndex(ia.Index) && c16same(binding(producer, ia.X), list) {
+		if ok && ia.Index == core.Resolve(key) && ascendingIndex(ia.Index) && c16same(binding(producer, ia.X), list) {
 			okP = true
 		}
-	})
+	}
 	if !okP {
 		return false, "jobs are not tagged with the index of their element in the input list"
 	}
 	// worker: result map key = key of the job entry; value = f(entry value)
 	okW := false
-	core.Instrs(workerFn, func(ins ssa.Instruction) {
-		mu, ok := ins.(*ssa.MapUpdate)
-		if !ok {
-			return
+	for _, fd := range core.DeepFind(p, workerFn, func(ins ssa.Instruction) bool {
+		_, ok := ins.(*ssa.MapUpdate)
+		return ok
+	}) {
+		mu := fd.Ins.(*ssa.MapUpdate)
+		kv, kst := core.Up(mu.Key, fd.Stack)
+		vv, vst := core.Up(mu.Value, fd.Stack)
+		if len(kst) != 0 || len(vst) != 0 {
+			continue
 		}
-		k, okK := mu.Key.(*ssa.Extract)
-		call, okC := mu.Value.(*ssa.Call)
+		k, okK := core.Resolve(kv).(*ssa.Extract)
+		call, okC := core.Resolve(vv).(*ssa.Call)
 		if !okK || !okC || k.Index != 1 || len(call.Call.Args) != 1 {
-			return
+			continue
 		}
 		v, okV := call.Call.Args[0].(*ssa.Extract)
 		if okV && v.Tuple == k.Tuple && v.Index == 2 {
@@ -1043,7 +1054,7 @@ func c16ordered(p *core.Prog, im, producer, workerFn *ssa.Function, list, fParam
 				okW = true
 			}
 		}
-	})
+	}
 	if !okW {
 		return false, "a worker does not send f(element) under the key it received with that element"
 	}
